@@ -37,7 +37,7 @@ Lemma tstep_text_char : forall c nbr cur out, xml_text_char c = true -> c <> 38 
   tstep (mkT (MText nbr false) cur out) c = Some (mkT (MText (if c =? 93 then S nbr else 0%nat) false) (c :: cur) out).
 Proof.
   intros c nbr cur out Hc H38 H60 H62. unfold xml_text_char in Hc. apply andb_true_iff in Hc. destruct Hc as [Hx H13].
-  unfold tstep. cbn [ts_mode ts_cur ts_out].
+  unfold tstep, tstep_gen. cbn [ts_mode ts_cur ts_out].
   destruct (Z.eqb_spec c 60); [congruence|]. destruct (Z.eqb_spec c 38); [congruence|].
   rewrite Hx. cbn [negb]. destruct (Z.eqb_spec c 62); [congruence|]. cbn [andb].
   destruct (c =? 13); [discriminate|]. rewrite andb_false_r. reflexivity.
